@@ -261,8 +261,18 @@ void check_next_arg(vec const &args)
 }
 
 VERIF_HARNESS(h_next_arg) { check_next_arg(sym_vec(static_cast<unsigned>(verif_param("n")), LEN + 1)); }
-//@harness h_next_arg param n=0..2 tier=quick loop=24
-//@harness h_next_arg param n=4..4 tier=thorough loop=24 wall=3000
+//@harness h_next_arg param n=0..1 tier=quick loop=24
+//@harness h_next_arg param n=2..2 tier=thorough loop=24 wall=3000
+
+// two tokens with parameter lengths (the first up to 3 bytes: "--p" is the long option p)
+VERIF_HARNESS(h_next_arg2)
+{
+  vec args{};
+  args.push_back(sym_fixed(static_cast<unsigned>(verif_param("len0"))));
+  args.push_back(sym_fixed(static_cast<unsigned>(verif_param("len1"))));
+  check_next_arg(args);
+}
+//@harness h_next_arg2 param len0=0..3 param len1=0..2 tier=quick loop=24
 
 // three tokens; their lengths are shape parameters (splits the work over several solver runs)
 VERIF_HARNESS(h_next_arg3)
@@ -273,7 +283,8 @@ VERIF_HARNESS(h_next_arg3)
   args.push_back(sym_fixed(static_cast<unsigned>(verif_param("len2"))));
   check_next_arg(args);
 }
-//@harness h_next_arg3 param len0=0..2 param len1=0..2 param len2=0..2 tier=quick loop=24
+//@harness h_next_arg3 param len0=0..2 param len1=0..2 param len2=0..2 if len0+len1+len2<6 tier=quick loop=24
+//@harness h_next_arg3 param len0=2..2 param len1=2..2 param len2=2..2 tier=thorough loop=24
 //@harness h_next_arg3 param len0=3..3 param len1=0..3 param len2=0..2 tier=thorough loop=24
 
 VERIF_HARNESS(h_pop_arg)
@@ -333,7 +344,8 @@ VERIF_HARNESS(h_use_flag)
   verif_assert(r == (pos < n), "use_flag: true iff the dashed name occurs");
   verif_assert(eq(state.args(), pos < n ? without(args, pos, 1) : args), "use_flag: removes exactly the first occurrence, everything else kept in order");
 }
-//@harness h_use_flag param n=0..3 tier=quick loop=24
+//@harness h_use_flag param n=0..2 tier=quick loop=24
+//@harness h_use_flag param n=3..3 tier=quick loop=24 cost=3
 //@harness h_use_flag param n=4..4 tier=thorough loop=24
 
 VERIF_HARNESS(h_use_option)
@@ -364,7 +376,8 @@ VERIF_HARNESS(h_use_option)
     verif_assert(eq(state.args(), without(args, pos, 2)), "use_option: removes exactly the option and its value, everything else kept in order");
   }
 }
-//@harness h_use_option param n=0..3 tier=quick loop=24
+//@harness h_use_option param n=0..2 tier=quick loop=24
+//@harness h_use_option param n=3..3 tier=quick loop=24 cost=3
 //@harness h_use_option param n=4..4 tier=thorough loop=24
 
 VERIF_HARNESS(h_leftover)
